@@ -615,7 +615,16 @@ def S_pow(a, b):
 
 
 def _bin(fn):
-    return (lambda a, b: fn(a, b)), (lambda a, b: fn(b, a))
+    def f(a, b):
+        if hasattr(b, "vals") or hasattr(b, "__array_ufunc__") and not isinstance(b, SV):
+            return NotImplemented
+        return fn(a, b)
+
+    def r(a, b):
+        if hasattr(b, "vals") or hasattr(b, "__array_ufunc__") and not isinstance(b, SV):
+            return NotImplemented
+        return fn(b, a)
+    return f, r
 
 
 for _name, _fn in [("add", S_add), ("sub", S_sub), ("mul", S_mul), ("floordiv", S_fdiv), ("mod", S_mod),
